@@ -48,6 +48,17 @@ class U:
     def is_float_dtype(self, e):
         return isinstance(e, ast.Name) and e.id == "float"
 
+    def is_array_dtype(self, e):
+        """`dtype=` of np.full_like that is the dtype of some array / scalar (`y_test.dtype`, `np.asarray(x).dtype`) or np.result_type of such.
+        Labels are unbounded `Int` here, so every such fill is exact in the translation; whether the chosen numpy dtype can really HOLD the
+        filled value (training class wider than the validation labels' dtype: finding F19) is outside this model and is what the C14 check
+        runs against the implementation with training / validation labels of different dtypes."""
+        if isinstance(e, ast.Attribute) and e.attr == "dtype":
+            return True
+        if isinstance(e, ast.Call) and self.attr_path(e.func) == "np.result_type" and e.args and not e.keywords:
+            return all(self.is_array_dtype(a) for a in e.args)
+        return False
+
     def expr(self, e):
         if isinstance(e, ast.Name):
             if e.id in self.env:
@@ -131,8 +142,14 @@ class U:
             if p == "np.full_like" and len(e.args) == 2 and set(kws) <= {"dtype"}:
                 (a, ta), (b, tb) = self.expr(e.args[0]), self.expr(e.args[1])
                 d = kws.get("dtype")
-                if d is not None and not (self.attr_path(d) or "").endswith(".dtype"):
+                if d is not None and not self.is_array_dtype(d):
                     raise Untranslatable("full_like dtype")
+                if ta == VI and tb == I:
+                    return "(Np.fullLike %s %s)" % (a, b), VI
+            if isinstance(f, ast.Name) and f.id == "_constant_prediction" and len(e.args) == 2 and not kws:
+                # module helper: the prediction vector holding the class x for every test example (its choice of dtype - wide enough to hold x - is
+                # outside this integer model; the C14 run exercises it on labels of different dtypes)
+                (a, ta), (b, tb) = self.expr(e.args[0]), self.expr(e.args[1])
                 if ta == VI and tb == I:
                     return "(Np.fullLike %s %s)" % (a, b), VI
             if p == "np.array" and len(e.args) == 1 and set(kws) == {"dtype"} and self.is_float_dtype(kws["dtype"]):
